@@ -1427,6 +1427,75 @@ Proof.
     rewrite Hke, N.eqb_refl. reflexivity.
 Qed.
 
+(* ---------- document-level facts for the capstone ---------- *)
+Lemma Forall2_in_left : forall (A B : Type) (R : A -> B -> Prop) l l' a,
+  Forall2 R l l' -> In a l -> exists b, In b l' /\ R a b.
+Proof.
+  intros A B R l l' a H. induction H as [|x y l l' Hxy H IH]; intros Hin; [destruct Hin|].
+  destruct Hin as [<-|Hin]; [exists y; split; [left; reflexivity|exact Hxy]|].
+  destruct (IH Hin) as [b' [Hb Hr]]. exists b'. split; [right; exact Hb|exact Hr].
+Qed.
+
+Lemma Forall2_map_eq : forall (A B C : Type) (R : A -> B -> Prop) (f : B -> C) (g : A -> C) l l',
+  Forall2 R l l' -> (forall a b, R a b -> f b = g a) -> map f l' = map g l.
+Proof.
+  intros A B C R f g l l' H Hfg. induction H as [|x y l l' Hxy H IH]; [reflexivity|].
+  cbn [map]. rewrite IH, (Hfg _ _ Hxy). reflexivity.
+Qed.
+
+Lemma Forall2_length' : forall (A B : Type) (R : A -> B -> Prop) l l', Forall2 R l l' -> length l = length l'.
+Proof. intros A B R l l' H. induction H; cbn [length]; congruence. Qed.
+
+Lemma combine_map_fst : forall (A B : Type) (l : list (A * B)), combine (map fst l) l = map (fun p => (fst p, p)) l.
+Proof. intros A B. induction l as [|p t IH]; [reflexivity|]. cbn [map combine]. rewrite IH. reflexivity. Qed.
+
+Lemma insert_region_first : forall r l, l <> [] -> fst r = 0 -> insert_region r l = r :: l.
+Proof.
+  intros r [|h t] Hne Hr; [congruence|]. cbn [insert_region].
+  replace (fst r <=? fst h) with true by (symmetry; apply N.leb_le; lia). reflexivity.
+Qed.
+
+Lemma idoffs_lt : forall d ids pos p, In p (idoffs d ids pos) ->
+  snd p < pos + N.of_nat (length (concat (map (w_chunk d) ids))).
+Proof.
+  intros d ids pos p Hp.
+  apply (idregs_fst_lt d ids pos (snd p, snd p + N.of_nat (length (w_chunk d (fst p))))).
+  unfold idregs. apply in_map_iff. exists p. split; [reflexivity|exact Hp].
+Qed.
+
+Lemma root_in_roots : forall d r, find (fun kv => beqb (fst kv) k_Root) (d_trailer d) = Some (k_Root, ORef r) ->
+  In r (roots_of d).
+Proof. intros d r H. unfold roots_of. rewrite H. cbn [refs_of]. left. reflexivity. Qed.
+
+Lemma roots_written : forall d x, doc_closed d -> In x (roots_of d) -> In x (w_ids d).
+Proof.
+  intros d x Hc Hx. destruct (queue_complete_lemma _ _ Hc) as [_ Hq]. apply Hq. apply reach_root. exact Hx.
+Qed.
+
+Lemma trailer_refs_roots : forall d r zs,
+  NoDup (map fst (d_trailer d)) ->
+  find (fun kv => beqb (fst kv) k_Root) (d_trailer d) = Some (k_Root, ORef r) ->
+  find (fun kv => beqb (fst kv) k_Size) (d_trailer d) = Some (k_Size, OInt zs) ->
+  forall x, In x (refs_of (d_objects d) (ODict (w_trailer' d))) -> In x (roots_of d).
+Proof.
+  intros d r zs Hnd Hroot Hsize x Hx. cbn [refs_of] in Hx. apply in_flat_map in Hx.
+  destruct Hx as [kv' [Hkv' Hx]]. unfold w_trailer' in Hkv'. apply in_map_iff in Hkv'.
+  destruct Hkv' as [kv [<- Hkv]].
+  destruct (beqb (fst kv) k_Size) eqn:Es; [cbn [snd is_null_val refs_of] in Hx; destruct Hx|].
+  destruct (is_null_val (d_objects d) (snd kv)) eqn:En; [destruct Hx|].
+  destruct (beqb (fst kv) k_Root) eqn:Er.
+  - apply beqb_eq in Er. destruct kv as [k v]. cbn [fst snd] in *. subst k.
+    pose proof (find_some _ _ Hroot) as [Hr _].
+    rewrite (nodup_key_unique _ _ _ _ _ _ Hnd Hkv Hr) in Hx.
+    unfold roots_of. rewrite Hroot. apply in_or_app. left. exact Hx.
+  - unfold roots_of. apply in_or_app. right. apply in_flat_map. exists kv. split; [exact Hkv|].
+    rewrite Er, En. exact Hx.
+Qed.
+
+Lemma dict_flat_inj : forall (g1 g2 : list N * obj -> list N) l,
+  [60; 60] ++ flat_map g1 l ++ [32; 62; 62] = [60; 60] ++ flat_map g2 l ++ [32; 62; 62] ->
+  flat_map g1 l = flat_map g2 l.
+Proof. intros g1 g2 l H. apply app_inv_head in H. apply app_inv_tail in H. exact H. Qed.
 Lemma write_read_strict_lemma : forall d, wf_doc d ->
   N.of_nat (length (wm_out d)) < 10 ^ 10 ->
   exists f, read_strict (wm_out d) = RsOk f
@@ -1437,4 +1506,210 @@ Lemma write_read_strict_lemma : forall d, wf_doc d ->
     /\ (forall id i, In id (written (graph_of d) (roots_of d)) -> find_obj (d_objects d) id = Some i ->
           exists so, In so (sf_objs f)
                      /\ sobj_view (wm_out d) so = (doc_ren d id, 0, expected_val d i, i_stream i)).
-Proof. Abort.
+Proof.
+  intros d W Hlt.
+  destruct W as [Hc Hobjs Htr Hst Hsb [a [b [Hver [Ha Hb]]]] [Hid1 Hid2] [r [ir [Hroot [Hfr Hnn]]]]
+                 [zs Hsize] [Hnd [Hnoid Hdk]] Hnoprev Hnoxs].
+  set (out := wm_out d) in *. set (total := N.of_nat (length out)) in *.
+  set (objs := d_objects d) in *.
+  assert (Hlay : out = w_hdr d ++ w_bodies d ++ w_xref d ++ w_trailer d ++ w_tail d)
+    by apply write_doc_layout_lemma.
+  set (lh := length (w_hdr d)). set (lb := length (w_bodies d)). set (lx := length (w_xref d)).
+  set (lt := length (w_trailer d)). set (ltl := length (w_tail d)).
+  assert (Hlen : length out = (lh + lb + lx + lt + ltl)%nat).
+  { rewrite Hlay, !app_length. unfold lh, lb, lx, lt, ltl. lia. }
+  assert (Hlx : (7 <= lx)%nat).
+  { unfold lx, w_xref. rewrite app_length. cbn [length]. lia. }
+  (* the trailer text *)
+  set (ren' := patched_ren d).
+  set (T' := w_trailer' d).
+  assert (Hext : forall x, In x (refs_of objs (ODict T')) -> doc_ren d x = ren' x).
+  { intros x Hx. apply patched_ren_eq. apply written_ren_pos; [exact Hc|].
+    apply roots_written; [exact Hc|]. exact (trailer_refs_roots d r zs Hnd Hroot Hsize x Hx). }
+  destruct (ren_ext WUS WUN objs (doc_ren d) ren' (ODict T') Hext) as [HU HP].
+  destruct (trailer_text_eq d Hnd zs Hsize (d_trailer d) (fun kv H => H)) as [Htxt Hpd].
+  fold T' in Htxt, Hpd. fold (et_entries d) in Hpd. fold objs in Htxt, Hpd.
+  assert (Htxt' : flat_map (w_tg d) (d_trailer d) = flat_map (gd WUS WUN objs ren') T').
+  { rewrite Htxt. apply dict_flat_inj. exact HU. }
+  assert (Hpd' : pdict objs ren' T' = et_entries d).
+  { rewrite Hpd.
+    change (to_pobj objs (doc_ren d) (ODict T')) with (SpDict (pdict objs (doc_ren d) T')) in HP.
+    change (to_pobj objs ren' (ODict T')) with (SpDict (pdict objs ren' T')) in HP.
+    injection HP as HP. symmetry. exact HP. }
+  assert (HwfT : Forall wf_entry T').
+  { apply wf_dict in Htr. unfold T', w_trailer'. rewrite Forall_forall in *. intros kv' Hkv'.
+    apply in_map_iff in Hkv'. destruct Hkv' as [kv [<- Hkv]]. specialize (Htr kv Hkv).
+    destruct (beqb (fst kv) k_Size); [|exact Htr]. destruct Htr as [Hk _]. split; [exact Hk|exact I]. }
+  (* the written objects *)
+  set (ids := w_ids d).
+  destruct (all_objects_read d (length out) Hc Hobjs Hst (le_n _) ids (N.of_nat lh) (w_hdr d)
+              (w_xref d ++ w_trailer d ++ w_tail d) (fun id H => H) Hlay (Nat2N.id _)) as [sos Hsos].
+  set (io := idoffs d ids (N.of_nat lh)) in *.
+  assert (Hoffs : w_offs d = map (fun p => (doc_ren d (fst p), snd p)) io) by apply offs_of_idoffs.
+  assert (Hnoffs : length (w_offs d) = length ids) by apply offs_of_length.
+  assert (Hoffs_lt : Forall (fun ko : N * N => snd ko < 10 ^ 10) (w_offs d)).
+  { rewrite Hoffs. apply Forall_forall. intros ko Hko. apply in_map_iff in Hko. destruct Hko as [p [<- Hp]].
+    cbn [snd]. apply idoffs_lt in Hp.
+    assert (Hlb : length (concat (map (w_chunk d) ids)) = lb) by reflexivity.
+    rewrite Hlb in Hp. unfold total in Hlt. lia. }
+  (* the section *)
+  set (sx := N.of_nat (lh + lb + lx + lt)).
+  set (R := 10 :: dec_of_N (w_xoff d) ++ [10; 37; 37; 69; 79; 70; 10]).
+  assert (Htl : w_tail d = k_startxref ++ R) by reflexivity.
+  set (sec := {| sec_entries := model_entries (w_offs d); sec_dict := expected_trailer d; sec_is_stream := false;
+                 sec_region := (w_xoff d, offset_of total (10 :: k_startxref ++ R)); sec_tail_value := 0;
+                 sec_obj := None |}).
+  assert (Hfuel : exists f, length out = S (S f)).
+  { exists (length out - 2)%nat. lia. }
+  destruct Hfuel as [f Hf].
+  assert (Hsec : read_section (length out) total sx out (w_xoff d) = inl sec).
+  { rewrite Hf.
+    apply (read_section_model_lemma f total sx out (w_xoff d) (w_offs d)
+             (60 :: 60 :: flat_map (w_tg d) (d_trailer d) ++ [32; 47; 73; 68; 32; 91] ++ hexstr (d_id1 d)
+                ++ hexstr (d_id2 d) ++ [93] ++ [32; 62; 62; 10] ++ k_startxref ++ R)
+             (expected_trailer d) R Hoffs_lt).
+    - unfold at_off, w_xoff. fold lh lb. rewrite Hlay.
+      replace (N.to_nat (N.of_nat lh + N.of_nat lb)) with (length (w_hdr d) + length (w_bodies d))%nat by (unfold lh, lb; lia).
+      rewrite skipn_add, skipn_app, skipn_all, Nat.sub_diag. cbn [skipn app].
+      rewrite skipn_app, skipn_all, Nat.sub_diag. cbn [skipn app].
+      unfold w_xref, w_trailer, w_lines, w_n. fold ids. rewrite Hnoffs, Htl. rewrite <- !app_assoc. reflexivity.
+    - rewrite Htxt'. rewrite (trailer_dict_parses objs ren' (patched_ren_pos d) (S f) T' (d_id1 d) (d_id2 d) (k_startxref ++ R)
+                                 HwfT Hid1 Hid2).
+      + rewrite Hpd'. reflexivity.
+      + rewrite <- Htxt'.
+        assert (length (flat_map (w_tg d) (d_trailer d)) + 20 <= lt)%nat.
+        { unfold lt, w_trailer. rewrite !app_length. cbn [length]. lia. }
+        lia.
+    - apply has_dup_keys_nodup. apply expected_trailer_nodup; assumption.
+    - apply expected_trailer_get_none; [exact Hnoxs | discriminate].
+    - unfold offset_of, total, sx. rewrite <- Htl. fold ltl. lia. }
+  (* header, startxref, tail *)
+  destruct (model_header_parses_lemma d a b Hver Ha Hb) as [after_hdr [Hhdr Hah]].
+  fold (wm_out d) in Hhdr, Hah. fold out in Hhdr, Hah. fold (w_hdr d) in Hah. fold lh in Hah.
+  assert (Hpre : out = (w_hdr d ++ w_bodies d ++ w_xref d ++ w_trailer d) ++ k_startxref ++ R).
+  { rewrite Hlay, Htl, <- !app_assoc. reflexivity. }
+  assert (Hprelen : length (w_hdr d ++ w_bodies d ++ w_xref d ++ w_trailer d) = (lh + lb + lx + lt)%nat).
+  { rewrite !app_length. unfold lh, lb, lx, lt. lia. }
+  assert (Hfl : find_last k_startxref out 0 None = Some sx).
+  { rewrite Hpre. unfold R. rewrite find_last_startxref, Hprelen. reflexivity. }
+  assert (Htail : parse_tail (at_off out sx) = Some (w_xoff d, [])).
+  { unfold at_off, sx. rewrite Nat2N.id, <- Hprelen, Hpre, skipn_app, skipn_all, Nat.sub_diag. cbn [skipn app].
+    unfold R. apply parse_tail_model. }
+  (* the merged table *)
+  set (xr := (0, XFree 0 65535) :: map (fun ko : N * N => (fst ko, XInUse (snd ko) 0)) (w_offs d)).
+  assert (Hnum : map fst (w_offs d) = map N.of_nat (seq 1 (length (w_offs d)))).
+  { rewrite <- w_offs_eq. apply body_numbers_lemma. exact Hc. }
+  assert (Hme : model_entries (w_offs d) = rev xr).
+  { unfold model_entries, xr. rewrite <- Hnum, combine_map_fst, map_map. cbn [rev fst snd]. reflexivity. }
+  assert (Hndx : NoDup (map fst xr)).
+  { unfold xr. cbn [map fst]. rewrite map_map. cbn [fst].
+    change (map (fun x : N * N => fst x) (w_offs d)) with (map fst (w_offs d)). rewrite Hnum.
+    constructor.
+    - intros H. apply in_map_iff in H. destruct H as [n0 [H0 Hn0]]. apply in_seq in Hn0. lia.
+    - apply NoDup_map_of_nat. apply seq_NoDup. }
+  assert (Hxr : merge_x [] (sec_entries sec) = xr).
+  { cbn [sec_entries sec]. rewrite merge_x_rev.
+    - rewrite Hme, rev_involutive, app_nil_r. reflexivity.
+    - rewrite app_nil_r, Hme, map_rev. apply NoDup_rev. exact Hndx. }
+  assert (Hlk : Forall (fun ke => lookup_x (fst ke) xr = Some (snd ke)) (sec_entries sec)).
+  { cbn [sec_entries sec]. rewrite Hme. apply Forall_forall. intros [k e] Hke. apply in_rev in Hke.
+    cbn [fst snd]. apply lookup_x_in; assumption. }
+  assert (Hobjs2 : Forall2 (fun ko so => (forall len_of, parse_indirect (length out) total out (snd ko) len_of = inl (Some so))
+                                         /\ so_num so = fst ko /\ so_gen so = 0) (w_offs d) sos).
+  { rewrite Hoffs. apply Forall2_map_left. eapply Forall2_impl; [|exact Hsos].
+    intros p so [H1 [H2 [H3 _]]]. cbn [fst snd]. repeat split; assumption. }
+  (* /Size and /Root *)
+  assert (Hetnd : NoDup (map fst (expected_trailer d))) by (apply expected_trailer_nodup; assumption).
+  assert (Hgsize : get_int (sec_dict sec) n_Size = Some (w_n d + 1)).
+  { cbn [sec_dict sec]. unfold get_int.
+    rewrite (dict_get_in (expected_trailer d) n_Size (SpInt (Z.of_N (w_n d + 1))) Hetnd).
+    - replace (0 <=? Z.of_N (w_n d + 1))%Z with true by (symmetry; apply Z.leb_le; lia).
+      rewrite N2Z.id. reflexivity.
+    - rewrite expected_trailer_eq. apply in_or_app. left.
+      pose proof (find_some _ _ Hsize) as [Hs _].
+      exact (et_entries_in d k_Size (OInt zs) Hs eq_refl). }
+  assert (Hmax : w_n d + 1 = max_num xr 0 + 1).
+  { f_equal. rewrite max_num_fold. unfold xr. cbn [map fst fold_max]. rewrite map_map. cbn [fst].
+    change (map (fun x : N * N => fst x) (w_offs d)) with (map fst (w_offs d)). rewrite Hnum, Hnoffs.
+    unfold w_n. fold ids.
+    destruct (fold_max_seq (length ids) 1 (N.max 0 0)) as [H|H].
+    - rewrite H. lia.
+    - rewrite H. reflexivity. }
+  assert (Hgroot : dict_get (sec_dict sec) n_Root = Some (SpRef (doc_ren d r) 0)).
+  { cbn [sec_dict sec]. apply (dict_get_in _ _ _ Hetnd).
+    rewrite expected_trailer_eq. apply in_or_app. left.
+    pose proof (find_some _ _ Hroot) as [Hr _].
+    exact (et_entries_in d k_Root (ORef r) Hr Hnn). }
+  assert (Hrw : In r ids).
+  { apply roots_written; [exact Hc|]. apply (root_in_roots d r Hroot). }
+  assert (Hlook : exists o', lookup_x (doc_ren d r) xr = Some (XInUse o' 0)).
+  { rewrite <- (idoffs_fst d ids (N.of_nat lh)) in Hrw. fold io in Hrw. apply in_map_iff in Hrw.
+    destruct Hrw as [p [Hp1 Hp2]]. exists (snd p). apply lookup_x_in; [exact Hndx|].
+    right. apply in_map_iff. exists (doc_ren d r, snd p). split; [reflexivity|].
+    rewrite Hoffs. apply in_map_iff. exists p. rewrite Hp1. split; [reflexivity|exact Hp2]. }
+  destruct Hlook as [o' Hlook].
+  (* regions *)
+  set (regs := idregs d ids (N.of_nat lh)).
+  assert (Hregs : map region_of sos = regs).
+  { unfold regs, idregs. apply (Forall2_map_eq _ _ _ _ _ _ _ _ Hsos).
+    intros p so [_ [_ [_ [Hw [He _]]]]]. unfold region_of. rewrite Hw, He. reflexivity. }
+  assert (Hhe : offset_of total after_hdr = N.of_nat lh).
+  { unfold offset_of, total. rewrite Hah. lia. }
+  assert (HT1 : exists T1, w_trailer d = T1 ++ [10]).
+  { eexists. unfold w_trailer. change [32; 62; 62; 10] with ([32; 62; 62] ++ [10]).
+    rewrite !app_assoc. reflexivity. }
+  destruct HT1 as [T1 HT1].
+  assert (Hlt1 : lt = (length T1 + 1)%nat).
+  { unfold lt. rewrite HT1, app_length. reflexivity. }
+  set (send := offset_of total (10 :: k_startxref ++ R)).
+  assert (Hsend : send = N.of_nat (lh + lb + lx + length T1)).
+  { unfold send, offset_of, total. cbn [length]. rewrite <- Htl. fold ltl. lia. }
+  assert (Hxoff : w_xoff d = N.of_nat lh + N.of_nat lb) by reflexivity.
+  assert (Hsorted : sort_regions ((0, offset_of total after_hdr) :: (sx, total) :: [sec_region sec] ++ map region_of (rev sos))
+                    = (0, N.of_nat lh) :: regs ++ [(w_xoff d, send); (sx, total)]).
+  { rewrite Hhe, map_rev, Hregs. cbn [sec_region sec app]. fold send.
+    unfold sort_regions. cbn [fold_right].
+    rewrite (sort_rev_sorted regs []); [| constructor | apply idregs_inc]. cbn [app].
+    rewrite (insert_region_last (w_xoff d, send) regs).
+    - rewrite (insert_region_last (sx, total) (regs ++ [(w_xoff d, send)])).
+      + rewrite <- app_assoc. cbn [app]. apply insert_region_first; [|reflexivity].
+        destruct regs; discriminate.
+      + apply Forall_app. split.
+        * apply Forall_forall. intros y Hy. apply idregs_fst_lt in Hy.
+          change (length (concat (map (w_chunk d) ids))) with lb in Hy. cbn [fst]. unfold sx. lia.
+        * constructor; [|constructor]. cbn [fst]. unfold sx. lia.
+    - apply Forall_forall. intros y Hy. apply idregs_fst_lt in Hy.
+      change (length (concat (map (w_chunk d) ids))) with lb in Hy. cbn [fst]. lia. }
+  assert (Hgap : gap_ok out send sx = true).
+  { unfold gap_ok, at_off. rewrite Hsend. unfold sx.
+    replace (N.to_nat (N.of_nat (lh + lb + lx + lt) - N.of_nat (lh + lb + lx + length T1))) with 1%nat by lia.
+    rewrite Nat2N.id.
+    assert (Ho : out = (w_hdr d ++ w_bodies d ++ w_xref d ++ T1) ++ 10 :: w_tail d).
+    { rewrite Hlay, HT1, <- !app_assoc. reflexivity. }
+    assert (Hl : length (w_hdr d ++ w_bodies d ++ w_xref d ++ T1) = (lh + lb + lx + length T1)%nat).
+    { rewrite !app_length. unfold lh, lb, lx. lia. }
+    rewrite Ho at 1. rewrite <- Hl, skipn_app, skipn_all, Nat.sub_diag. reflexivity. }
+  assert (Hreg : regions_ok out 0 (sort_regions ((0, offset_of total after_hdr) :: (sx, total) :: [sec_region sec] ++ map region_of (rev sos))) total = None).
+  { rewrite Hsorted. cbn [regions_ok]. rewrite N.ltb_irrefl, gap_ok_refl. cbn [negb].
+    unfold regs. rewrite regions_ok_chain.
+    change (length (concat (map (w_chunk d) ids))) with lb. rewrite <- Hxoff.
+    cbn [regions_ok]. rewrite N.ltb_irrefl, gap_ok_refl. cbn [negb].
+    replace (sx <? send) with false by (symmetry; apply N.ltb_ge; rewrite Hsend; unfold sx; lia).
+    rewrite Hgap. cbn [negb]. rewrite gap_ok_refl. reflexivity. }
+  (* assemble *)
+  pose proof (read_strict_one_section_lemma out [a; 46; b] after_hdr sx (w_xoff d) sec 0 65535 (w_offs d) sos
+                (w_n d + 1) (doc_ren d r) 0 o' 0
+                Hhdr Hfl Htail Hsec (expected_trailer_get_none d n_Prev Hnoprev ltac:(discriminate))
+                eq_refl Hxr Hlk Hndx Hobjs2 Hgsize Hmax Hgroot Hlook Hreg) as Hrs.
+  eexists. split; [exact Hrs|].
+  cbn [sf_version sf_sections sf_xref_stream sf_trailer sf_objs sec_dict sec_is_stream sec].
+  split; [symmetry; exact Hver|]. split; [reflexivity|]. split; [reflexivity|]. split; [reflexivity|].
+  split.
+  - rewrite rev_length, <- (Forall2_length' _ _ _ _ _ Hsos). unfold io. apply idoffs_length.
+  - intros id i Hin Hfi.
+    assert (Hin' : In id (map fst io)) by (unfold io; rewrite idoffs_fst; exact Hin).
+    apply in_map_iff in Hin'. destruct Hin' as [p [Hp1 Hp2]].
+    destruct (Forall2_in_left _ _ _ _ _ _ Hsos Hp2) as [so [Hso1 [_ [_ [_ [_ [_ Hview]]]]]]].
+    exists so. split; [apply in_rev in Hso1; exact Hso1|].
+    rewrite Hp1 in Hview. exact (Hview i Hfi).
+Qed.
